@@ -635,10 +635,13 @@ impl<'de> de::Deserializer<'de> for Variable {
             Variable::String(v) => visitor.visit_string(v),
             Variable::Array(v) => {
                 let len = v.len();
-                visitor.visit_seq(SeqDeserializer {
-                    iter: v.into_iter(),
-                    len,
-                })
+                visit_all_elements(
+                    SeqDeserializer {
+                        iter: v.into_iter(),
+                        len,
+                    },
+                    visitor,
+                )
             }
             Variable::Object(v) => visitor.visit_map(MapDeserializer {
                 iter: v.into_iter(),
@@ -826,6 +829,20 @@ struct SeqDeserializer {
     len: usize,
 }
 
+/// Visits a sequence and fails if the visitor did not consume every element.
+fn visit_all_elements<'de, V>(mut seq: SeqDeserializer, visitor: V) -> Result<V::Value, Error>
+where
+    V: de::Visitor<'de>,
+{
+    let len = seq.len;
+    let value = visitor.visit_seq(&mut seq)?;
+    if seq.iter.len() == 0 {
+        Ok(value)
+    } else {
+        Err(de::Error::invalid_length(len, &"fewer elements in array"))
+    }
+}
+
 impl<'de> de::Deserializer<'de> for SeqDeserializer {
     type Error = Error;
 
@@ -837,7 +854,7 @@ impl<'de> de::Deserializer<'de> for SeqDeserializer {
         if self.len == 0 {
             visitor.visit_unit()
         } else {
-            visitor.visit_seq(self)
+            visit_all_elements(self, visitor)
         }
     }
 
